@@ -658,3 +658,165 @@ Proof.
   unfold kill0. destruct (mem q (dead s)); [reflexivity|].
   destruct (S q) as [E|E]; rewrite E; [|rewrite Nat.eqb_refl, orb_true_r]; reflexivity.
 Qed.
+
+(* ---------- suspended processes, and processes that have exited but are not yet reaped ----------
+   A process is running (R, S or D in /proc/<pid>/stat), stopped (T: SIGSTOP, SIGTSTP = ctrl-z; t: under a debugger),
+   a zombie (Z: it has exited — every file, lock and socket it had is released — but its parent has not collected it
+   yet), or gone. A STOPPED process is alive for the property: its cache is open, it goes on where it was when it is
+   continued. kill(pid, 0) answers "no error" for the first three and ESRCH for the last: process.IsRunning = "the pid
+   exists". So the protocol above does not see suspension at all (open_x_kill0), a stopped holder is as protected as a
+   running one, and a zombie's lock blocks until the parent reaps it (the documented assumption "a killed process is
+   reaped"). [base] is the state of the protocol; [stopped], [zombies] say which processes that are not gone are in
+   which condition. *)
+Inductive pstate := PRunning | PStopped | PZombie | PGone.
+Record xst := mkx { base : st; stopped : list nat; zombies : list nat }.
+Definition pstate_of (x : xst) (p : nat) : pstate :=
+  if mem p (dead (base x)) then PGone
+  else if mem p (zombies x) then PZombie
+  else if mem p (stopped x) then PStopped else PRunning.
+(* the property's notion: the process still has what it had and will go on *)
+Definition lives (a : pstate) : bool := match a with PRunning | PStopped => true | _ => false end.
+(* kill(pid, 0), asked by somebody who may signal the process *)
+Definition kill0_ps (a : pstate) : probe := match a with PGone => PNoSuch | _ => POk end.
+(* third field of /proc/<pid>/stat; none once the process is gone *)
+Inductive letter := LetRSD | LetT | LetZ.
+Definition stat_of (a : pstate) : option letter :=
+  match a with PRunning => Some LetRSD | PStopped => Some LetT | PZombie => Some LetZ | PGone => None end.
+(* readings of "is running": the code's (the pid exists); exists and is in one of the states R, S, D; exists and is not Z *)
+Inductive preading := Kill0 | StatRSD | NotZombie.
+Definition answers (r : preading) (a : pstate) : bool :=
+  is_running Exists (kill0_ps a) &&
+  match r, stat_of a with
+  | Kill0, _ => true
+  | _, None => true                      (* /proc unreadable: assumed to run *)
+  | StatRSD, Some LetRSD => true
+  | StatRSD, Some _ => false
+  | NotZombie, Some LetZ => false
+  | NotZombie, Some _ => true
+  end.
+Definition test_x (r : preading) (x : xst) (p : nat) : st * out :=
+  let s := base x in
+  match lockf s with
+  | None => test_free s p
+  | Some (LPid q) => if answers r (pstate_of x q) then (s, Refused q) else test_free s p
+  | Some LTorn => test_free s p
+  end.
+Definition open_x (r : preading) (x : xst) (p : nat) : xst * out :=
+  match test_x r x p with
+  | (s1, Granted) => (mkx (fst (step (fst (step s1 (Create p))) (Write p))) (stopped x) (zombies x), Granted)
+  | (s1, o) => (mkx s1 (stopped x) (zombies x), o)
+  end.
+
+(* the process has exited (killed, or by itself without cleaning up) and nobody has collected it: it holds nothing, it
+   is not among the dead yet; then the parent reaps it. The two together are [kill1]. *)
+Definition zombify (s : st) (p : nat) : st := mkst (lockf s) (dead s) (rm p (holders s)) (rm p (ready s)) (rm p (created s)) (tmpf s).
+Definition reap (s : st) (p : nat) : st := mkst (lockf s) (p :: dead s) (holders s) (ready s) (created s) (tmpf s).
+Lemma kill_is_exit_then_reap s p : fst (kill1 s p) = reap (zombify s p) p.
+Proof. reflexivity. Qed.
+Definition xexit (x : xst) (p : nat) : xst := mkx (zombify (base x) p) (rm p (stopped x)) (p :: zombies x).
+Definition xreap (x : xst) (p : nat) : xst := mkx (reap (base x) p) (stopped x) (rm p (zombies x)).
+
+Lemma answers_kill0 a : answers Kill0 a = negb (match a with PGone => true | _ => false end).
+Proof. destruct a; reflexivity. Qed.
+Lemma pstate_gone x q : mem q (dead (base x)) = true -> pstate_of x q = PGone.
+Proof. unfold pstate_of. now intros ->. Qed.
+Lemma pstate_not_gone x q : mem q (dead (base x)) = false -> pstate_of x q <> PGone.
+Proof. unfold pstate_of. intros ->. destruct (mem q (zombies x)); [discriminate|]. destruct (mem q (stopped x)); discriminate. Qed.
+Lemma answers_kill0_dead x q : answers Kill0 (pstate_of x q) = negb (mem q (dead (base x))).
+Proof.
+  destruct (mem q (dead (base x))) eqn:D; [rewrite (pstate_gone x q D); reflexivity|].
+  apply pstate_not_gone in D. rewrite answers_kill0. destruct (pstate_of x q); try reflexivity. congruence.
+Qed.
+Lemma test_x_kill0 x p : test_x Kill0 x p = step (base x) (Test p).
+Proof.
+  unfold test_x. cbn [step]. destruct (lockf (base x)) as [[q|]|]; try reflexivity.
+  rewrite answers_kill0_dead. destruct (mem q (dead (base x))); reflexivity.
+Qed.
+(* the code's liveness test does not see who is stopped or unreaped: the open is the open of the protocol above *)
+Lemma open_x_kill0 x p :
+  open_x Kill0 x p = (mkx (fst (open_atomic (base x) p)) (stopped x) (zombies x), snd (open_atomic (base x) p)).
+Proof.
+  unfold open_x, open_atomic. rewrite test_x_kill0. destruct (step (base x) (Test p)) as [s1 o]. destruct o; reflexivity.
+Qed.
+
+(* a holder that is not gone — running, stopped, or even an unreaped zombie — has every open refused, naming it,
+   and nothing changes *)
+Lemma not_gone_refused x p q : lockf (base x) = Some (LPid q) -> mem q (dead (base x)) = false -> open_x Kill0 x p = (x, Refused q).
+Proof. intros L D. rewrite open_x_kill0, (refuse_open (base x) p q L D). destruct x; reflexivity. Qed.
+Lemma pstate_stopped_alive x q : pstate_of x q = PStopped -> mem q (dead (base x)) = false.
+Proof. unfold pstate_of. destruct (mem q (dead (base x))); [discriminate|reflexivity]. Qed.
+Lemma stopped_refused x p q : lockf (base x) = Some (LPid q) -> pstate_of x q = PStopped ->
+  lives (pstate_of x q) = true /\ open_x Kill0 x p = (x, Refused q).
+Proof. intros L S. split; [rewrite S; reflexivity|]. apply not_gone_refused; auto. now apply pstate_stopped_alive. Qed.
+
+(* any schedule: the others open, close, fail, are killed, crash inside their open; anybody — the holder too — is
+   stopped and continued any number of times *)
+Inductive xev := XA (e : aev) | XStop (p : nat) | XCont (p : nat).
+Definition xstep (x : xst) (e : xev) : xst :=
+  match e with
+  | XA a => mkx (astep (base x) a) (stopped x) (zombies x)       (* (AOpen under Kill0 = open_atomic on the base: open_x_kill0) *)
+  | XStop p => mkx (base x) (p :: stopped x) (zombies x)
+  | XCont p => mkx (base x) (rm p (stopped x)) (zombies x)
+  end.
+Fixpoint xrun (x : xst) (es : list xev) : xst := match es with [] => x | e :: t => xrun (xstep x e) t end.
+Fixpoint proj (es : list xev) : list aev := match es with [] => [] | XA a :: t => a :: proj t | _ :: t => proj t end.
+Lemma base_xrun es : forall x, base (xrun x es) = arun (base x) (proj es).
+Proof. induction es as [|e t IH]; intros x; cbn; auto. destruct e; rewrite IH; reflexivity. Qed.
+Lemma xstep_open_is_open_x x p : xstep x (XA (AOpen p)) = fst (open_x Kill0 x p).
+Proof. rewrite open_x_kill0. reflexivity. Qed.
+Lemma In_proj a es : In a (proj es) -> In (XA a) es.
+Proof. induction es as [|e t IH]; cbn; [tauto|]. destruct e; cbn; intros H; auto. destruct H as [<-|H]; auto. Qed.
+
+Lemma live_stays_alive es : forall s q, inv s -> aoks s es = true -> lockf s = Some (LPid q) -> mem q (dead s) = false ->
+  (forall e, In e es -> actor e <> q) -> mem q (dead (arun s es)) = false.
+Proof.
+  induction es as [|e t IH]; intros s q I A L D N; cbn in *; auto.
+  apply andb_true_iff in A as [A1 A2].
+  assert (D1 : mem q (dead (astep s e)) = false).
+  { destruct (mem q (dead (astep s e))) eqn:M; auto. apply dead_astep in M as [M|M]; [|congruence]. exfalso. apply (N e); auto. }
+  apply IH; auto. now apply inv_astep. apply (live_lock_step s e q); auto.
+Qed.
+Lemma stopped_lock_stays es x q : inv (base x) -> aoks (base x) (proj es) = true ->
+  lockf (base x) = Some (LPid q) -> mem q (dead (base x)) = false ->
+  (forall a, In (XA a) es -> actor a <> q) ->
+  let x' := xrun x es in
+  lockf (base x') = Some (LPid q) /\ mem q (dead (base x')) = false /\ forall p, open_x Kill0 x' p = (x', Refused q).
+Proof.
+  intros I A L D N x'. subst x'.
+  assert (N' : forall e, In e (proj es) -> actor e <> q) by (intros e He; apply N; now apply In_proj).
+  assert (L' : lockf (base (xrun x es)) = Some (LPid q)) by (rewrite base_xrun; apply live_lock_run; auto).
+  assert (D' : mem q (dead (base (xrun x es))) = false) by (rewrite base_xrun; apply live_stays_alive; auto).
+  split; [exact L'|]. split; [exact D'|]. intros p. now apply not_gone_refused.
+Qed.
+
+(* "alive = in state R, S or D": the holder, stopped (ctrl-z), is alive and holds; process 2 is let in next to it *)
+Lemma statRSD_refuted : exists x, inv (base x) /\ In 1 (holders (base x)) /\ lockf (base x) = Some (LPid 1) /\
+  pstate_of x 1 = PStopped /\ lives (pstate_of x 1) = true /\
+  snd (open_x StatRSD x 2) = Granted /\ lockf (base (fst (open_x StatRSD x 2))) = Some (LPid 2) /\
+  holders (base (fst (open_x StatRSD x 2))) = [2; 1] /\ dead (base (fst (open_x StatRSD x 2))) = [].
+Proof.
+  exists (xstep (mkx (fst (open_atomic st0 1)) [] []) (XStop 1)). split; [apply (inv_held [] 1); reflexivity|].
+  vm_compute. repeat split; auto.
+Qed.
+(* ... which no schedule without a suspended or unreaped process can show: there the readings coincide *)
+Lemma readings_blind r x p : stopped x = [] -> zombies x = [] -> open_x r x p = open_x Kill0 x p.
+Proof.
+  intros S Z. unfold open_x, test_x. destruct (lockf (base x)) as [[q|]|]; try reflexivity.
+  unfold pstate_of. rewrite S, Z, !mem_nil. destruct (mem q (dead (base x))); destruct r; reflexivity.
+Qed.
+(* the test the seed was after — exists and is not a zombie — keeps a stopped or running holder protected ... *)
+Lemma notzombie_protects x p q : lockf (base x) = Some (LPid q) -> lives (pstate_of x q) = true -> open_x NotZombie x p = (x, Refused q).
+Proof.
+  intros L A. unfold open_x, test_x. rewrite L. destruct (pstate_of x q); try discriminate; cbn; destruct x; reflexivity.
+Qed.
+
+(* What the code does with an unreaped holder: 1 held and was killed, its parent has not collected it. Nobody holds
+   the cache, and still the open is refused — until the parent reaps: then the lock is stale and the open succeeds. *)
+Lemma zombie_blocks_refuted : exists x, inv (base x) /\ holders (base x) = [] /\ lockf (base x) = Some (LPid 1) /\
+  pstate_of x 1 = PZombie /\ lives (pstate_of x 1) = false /\
+  open_x Kill0 x 2 = (x, Refused 1) /\
+  snd (open_x NotZombie x 2) = Granted /\
+  snd (open_x Kill0 (xreap x 1) 2) = Granted /\ holders (base (fst (open_x Kill0 (xreap x 1) 2))) = [2].
+Proof.
+  exists (xexit (mkx (fst (open_atomic st0 1)) [] []) 1). split; [apply inv_free|]. vm_compute. repeat split; auto.
+Qed.
